@@ -129,6 +129,38 @@ def fbRef (P : Prog) (env : Nat → Nat) : Nat → Nat → Nat
 
 def fbReference (P : Prog) (env : Nat → Nat) : Nat → Nat := fbRef P env (P.n + 1)
 
+/-! ### Executable (memoised) versions of the references, used by the driver.
+   `kleene`/`reach`/`fbRef` above are the specifications (functions, exponential to run);
+   the list versions compute the same tables round by round. -/
+
+def kleeneL (P : Prog) (env : Nat → Nat) : Nat → List Nat
+  | 0 => List.replicate P.n 0
+  | k + 1 =>
+    let prev := kleeneL P env k
+    (List.range P.n).map (fun i => evalExpr env (fun j => prev.getD j 0) (P.node i).body)
+
+def lfpL (P : Prog) (env : Nat → Nat) : List Nat := kleeneL P env (8 * P.n + 1)
+
+/-- `reachL k a` = the nodes reachable from `a` by a path of length `1..k`. -/
+def reachL (P : Prog) (env : Nat → Nat) : Nat → Nat → List Nat
+  | 0, _ => []
+  | k + 1, a =>
+    let prev := reachL P env k a
+    let next := callees env (P.node a).body ++ prev.flatMap (fun c => callees env (P.node c).body)
+    next.eraseDups
+
+def onCycleL (P : Prog) (env : Nat → Nat) (i : Nat) : Bool := (reachL P env P.n i).contains i
+
+def fbRefL (P : Prog) (env : Nat → Nat) : Nat → List Nat
+  | 0 => List.replicate P.n 0
+  | k + 1 =>
+    let prev := fbRefL P env k
+    (List.range P.n).map (fun i =>
+      if onCycleL P env i then fallbackValue P i
+      else evalExpr env (fun j => prev.getD j 0) (P.node i).body)
+
+def fbReferenceL (P : Prog) (env : Nat → Nat) : List Nat := fbRefL P env (P.n + 1)
+
 /-! ## Engine model -/
 
 inductive PanicClass where
